@@ -8,10 +8,10 @@
     Orientation: [dir] labels every block axis with a direction such that coincident wires are aligned iff
     their axes carry equal labels ([oriented]); on a geometric mesh this is the sign of the axis direction.
     The correspondence evaluates [oriented_b] inside Coq on every generated assembly. *)
-From Coq Require Import Reals List Bool Arith ZArith QArith Qreals Lia Lra.
+From Coq Require Import Reals List Bool Arith ZArith QArith Qreals Lia Lra Psatz.
 From CB Require Import Model.Propagate Proofs.PropagateBasics Proofs.PropagateInv
   Model.C03_Relations Proofs.C03_GeomSeries
-  Model.C04_Payload Model.C04_Realise Proofs.C04_Transport Proofs.C04_Realise.
+  Model.C04_Payload Model.C04_Realise Proofs.C04_Transport Proofs.C04_Realise Proofs.C04_Lipschitz.
 Import ListNotations.
 Local Open Scope nat_scope.
 
@@ -72,41 +72,197 @@ Proof.
   apply realised_c2c; exact Hn.
 Qed.
 
-(** ** 3. shared edges: when writing succeeds, any two coincident wires carry the same count and
-    gradings that agree number by number (the code's own relative tolerance [tau]) with the other wire's
-    grading - as it is when aligned, [Grading.inverted] when anti-aligned; and an inverted grading
-    describes exactly the reversed sequence of cell sizes, multi-section included *)
+(** ** 3. shared edges.
+
+    What the code guarantees on success is that the NUMBERS of the gradings of coincident wires agree to its
+    relative tolerance [tau] ([spec_close]: math.isclose on every length ratio and total expansion, equal
+    counts) - two independently chopped blocks are compared as floats.  3a turns that into a bound on the
+    CELL SIZES blockMesh makes of the two gradings, for ALL section counts, expansions and lengths:
+    every cell differs by at most [kappa tau * |L| * M] where M bounds the length ratios (the code
+    enforces 0 < length_ratio <= 1, i.e. M = 1) and
+
+        kappa tau = tau * (2 - tau) / (1 - tau)   (<= 3 tau for tau <= 1/2; kappa 0 = 0),
+
+    independent of the number of cells and of the expansions.  Behind it (3a'): within one section a cell
+    changes by at most the FACTOR by which the total expansion changes.  3b is the statement about the written
+    mesh; 3c keeps the exact-equality statement visible, refuted. *)
+
+(** 3a' one section of [n] cells on one length: cell by cell, the ratio of the two sizes lies between E1/E2
+    and E2/E1 *)
+Definition C04_cell_factor_stmt : Prop :=
+  forall (S : R) (n k : nat) (E1 E2 : R), (0 <= S)%R -> (0 < E1)%R -> (E1 <= E2)%R -> (k < n)%nat ->
+    (bm_cell S n E2 k * E1 <= bm_cell S n E1 k * E2 /\ bm_cell S n E1 k * E1 <= bm_cell S n E2 k * E2)%R.
+
+Theorem C04_cell_factor : C04_cell_factor_stmt.
+Proof.
+  intros S n k E1 E2 HS H1 H12 Hk. rewrite !bm_cell_share by lia.
+  destruct (share_factor n E1 E2 k H1 H12 Hk) as [A B]. split; nra.
+Qed.
+
+(** 3a two gradings (any number of sections) whose numbers are [tau]-close: all cell sizes are close *)
+Definition C04_sequences_close_stmt : Prop :=
+  forall (tau : Q) (L M : R) (g1 g2 : list div3),
+    (0 <= Q2R tau < 1)%R ->
+    Forall (fun d => 0 < Q2R (snd d))%R g1 -> lr_bounded M g1 -> lr_bounded M g2 ->
+    spec_close tau g1 g2 = true ->
+    let c1 := grading_cells L (map divR g1) in
+    let c2 := grading_cells L (map divR g2) in
+    length c1 = length c2 /\
+    forall k, (k < length c1)%nat -> (Rabs (nth k c1 0 - nth k c2 0) <= kappa (Q2R tau) * Rabs L * M)%R.
+
+Theorem C04_sequences_close : C04_sequences_close_stmt.
+Proof.
+  intros tau L M g1 g2 Ht HP B1 B2 H c1 c2. apply cells_within_nth.
+  apply sequences_close; assumption.
+Qed.
+
+(** the bound tends to 0 with the tolerance *)
+Definition C04_bound_vanishes_stmt : Prop :=
+  kappa 0 = 0%R /\ forall tau, (0 <= tau <= 1 / 2)%R -> (0 <= kappa tau <= 3 * tau)%R.
+
+Theorem C04_bound_vanishes : C04_bound_vanishes_stmt.
+Proof.
+  split; [exact kappa_0|]. intros tau H. split; [apply kappa_nonneg; lra | apply kappa_le_3tau; exact H].
+Qed.
+
+(** 3b when writing succeeds, any two coincident wires [w], [c] carry equal counts, gradings whose numbers
+    agree to [tau] (with the other wire's grading as it is when aligned, [Grading.inverted] when
+    anti-aligned), and - each wire expanded on its OWN length, coincident wires having one length
+    ([len_shared], checked on every generated case) - cell sequences that agree cell by cell within
+    [kappa tau * |len w| * M], the other sequence REVERSED when the wires are anti-aligned; the two
+    sequences are EXACTLY equal (resp. reversed) when the wire holds the other wire's section records,
+    which is what copy_neighbours leaves behind ([C04_copied_shares_records]) *)
 Definition C04_same_sequence_stmt : Prop :=
+  forall bs tau eor o_coin o_nbrs cs sp k ch,
+    run bs tau eor o_coin o_nbrs = Ok cs sp k ch ->
+    exists s, final bs eor o_coin o_nbrs = Some s /\
+      forall x w c, In x (all_axes (nblocks4 bs)) -> In w (wires_of_axis x) -> In c (coin_set (gb bs) w) ->
+        wcount s c = wcount s w /\
+        spec_close tau (num (g s w)) (if aligned (gb bs) c w then num (g s c) else num (inv_secs (g s c))) = true /\
+        forall (len : wire -> R) (M : R),
+          (0 <= Q2R tau < 1)%R -> len_shared bs R len -> expansions_positive bs s -> ratios_bounded bs M s ->
+          let mine := grading_cells (len w) (numR (g s w)) in
+          let other := grading_cells (len c) (numR (g s c)) in
+          let other' := if aligned (gb bs) c w then other else rev other in
+          cells_within (kappa (Q2R tau) * Rabs (len w) * M) mine other' /\
+          (g s w = (if aligned (gb bs) c w then g s c else inv_secs (g s c)) -> mine = other').
+
+Theorem C04_same_sequence : C04_same_sequence_stmt.
+Proof. exact same_sequence. Qed.
+
+(** [cells_within eps] is cell-wise: equal lengths and every pair of cells within [eps] *)
+Definition C04_cells_within_meaning_stmt : Prop :=
+  forall eps l m, cells_within eps l m ->
+    length l = length m /\ forall k, (k < length l)%nat -> (Rabs (nth k l 0 - nth k m 0) <= eps)%R.
+Theorem C04_cells_within_meaning : C04_cells_within_meaning_stmt.
+Proof. exact cells_within_nth. Qed.
+
+(** an inverted grading is exactly the reversed sequence of cell sizes, multi-section included *)
+Definition C04_inverted_is_reversed_stmt : Prop :=
+  forall L l, Forall (fun s => (0 < Q2R (s_E s))%R) l ->
+    grading_cells L (numR (inv_secs l)) = rev (grading_cells L (numR l)).
+Theorem C04_inverted_is_reversed : C04_inverted_is_reversed_stmt.
+Proof. exact cells_inv_secs. Qed.
+
+(** copy_neighbours on a wire with a defined coincident wire: afterwards the wire holds the section records of
+    one of its coincident wires (that wire's own records untouched), reversed/flipped when anti-aligned *)
+Definition C04_copied_shares_records_stmt : Prop :=
+  forall bs o_coin s w,
+    coin_ok bs o_coin -> In w (all_wires (nblocks4 bs)) -> (exists c, In c (o_coin w) /\ w_defined s c = true) ->
+    exists c, In c (coin_set (gb bs) w) /\ w_defined s c = true /\
+      g (copy_wire bs o_coin s w) w = (if aligned (gb bs) c w then g s c else inv_secs (g s c)) /\
+      g (copy_wire bs o_coin s w) c = g s c.
+Theorem C04_copied_shares_records : C04_copied_shares_records_stmt.
+Proof. intros bs o_coin s w. apply copy_wire_shares. Qed.
+
+(** 3c exact equality of the two cell sequences (the statement without tolerance) does NOT hold in general:
+    two neighbouring blocks, both chopped into 2 cells along every direction, total expansion 2 on one and
+    2 + 1e-8 on the other, tau = 1e-7 (constants.TOL): the check passes and the mesh is written, the first
+    cells on the shared edge are 1/3 and 1/(3 + 1e-8) of it.  Tolerance is inherent in comparing floats. *)
+Definition C04_same_sequence_exact_stmt : Prop :=
   forall bs tau eor o_coin o_nbrs cs sp k ch (len : wire -> R),
     run bs tau eor o_coin o_nbrs = Ok cs sp k ch ->
     exists s, final bs eor o_coin o_nbrs = Some s /\
       forall x w c, In x (all_axes (nblocks4 bs)) -> In w (wires_of_axis x) -> In c (coin_set (gb bs) w) ->
         grading_cells (len w) (numR (g s w)) =
         if aligned (gb bs) c w then grading_cells (len w) (numR (g s c)) else rev (grading_cells (len w) (numR (g s c))).
-(** Full strength (exact equality of the two cell-size sequences) is NOT what the code can deliver for two
-    independently chopped blocks: their gradings are compared with the relative tolerance [tau] (floats).
-    Proved below: the numbers of the two gradings agree to [tau] - exactly for copied wires, which share
-    the section records - and an inverted grading is exactly the reversed sequence.  Missing for the full
-    statement: a Lipschitz bound turning [tau]-closeness of expansions into closeness of cell sizes
-    (measured by the direct oracle on every case at 1e-6 instead). *)
-Definition C04_same_sequence_partial_stmt : Prop :=
-  (forall bs tau eor o_coin o_nbrs cs sp k ch,
-     run bs tau eor o_coin o_nbrs = Ok cs sp k ch ->
-     exists s, final bs eor o_coin o_nbrs = Some s /\
-       forall x w c, In x (all_axes (nblocks4 bs)) -> In w (wires_of_axis x) -> In c (coin_set (gb bs) w) ->
-         wcount s c = wcount s w /\
-         spec_close tau (num (g s w)) (if aligned (gb bs) c w then num (g s c) else num (inv_secs (g s c))) = true)
-  /\ (forall L l, Forall (fun s => (0 < Q2R (s_E s))%R) l ->
-        grading_cells L (numR (inv_secs l)) = rev (grading_cells L (numR l))).
 
-Theorem C04_same_sequence_partial : C04_same_sequence_partial_stmt.
+Definition tw_u : uchop := {| u_lr := 1; u_cnt := 2; u_tag := PC2c; u_val := 1 |}.
+Definition tw_bs : list blk4 :=
+  [ {| b_verts := [0; 1; 2; 3; 4; 5; 6; 7]; b_chops := [[tw_u]; [tw_u]; [tw_u]] |};
+    {| b_verts := [4; 5; 6; 7; 8; 9; 10; 11]; b_chops := [[tw_u]; [tw_u]; [tw_u]] |} ].
+Definition tw_eor (w : wire) (i : nat) : Q := if (fst (fst w) =? 0) then 2%Q else (2 + (1 # 100000000))%Q.
+Definition tw_tau : Q := 1 # 10000000.
+Definition tw_oc := o_coin_ins (gb tw_bs).
+Definition tw_on := o_nbrs_ins (gb tw_bs).
+Definition sec_view (s : sec) : Q * Z * Q * bool := (s_lr s, s_cnt s, s_E s, s_inv s).
+
+Example C04_tolerance_witness_runs :
+  match run tw_bs tw_tau tw_eor tw_oc tw_on with Ok _ _ _ _ => true | _ => false end = true /\
+  match final tw_bs tw_eor tw_oc tw_on with
+  | Some s => (map sec_view (g s (1, 0, 0)), map sec_view (g s (0, 0, 3)))
+  | None => ([], []) end = ([(1%Q, 2%Z, (2 + (1 # 100000000))%Q, false)], [(1%Q, 2%Z, 2%Q, false)]) /\
+  aligned (gb tw_bs) (0, 0, 3) (1, 0, 0) = true /\
+  existsb (wire_eqb (0, 0, 3)) (coin_set (gb tw_bs) (1, 0, 0)) = true.
+Proof. vm_compute. repeat split; reflexivity. Qed.
+
+Lemma numR_of_view l a n e : map sec_view l = [(a, n, e, false)] -> numR l = [(Q2R a, n, Q2R e)].
 Proof.
-  split.
-  - intros bs tau eor oc on cs sp k ch R.
-    destruct (run_ok_final bs tau eor oc on cs sp k ch R) as (s & F & _ & C & _).
-    exists s. split; [exact F|]. intros x w c Hx Hw Hc.
-    destruct (consistent_spec bs tau s C x Hx) as [_ H]. exact (H w c Hw Hc).
-  - exact cells_inv_secs.
+  destruct l as [|s [|s' l]]; try discriminate. unfold sec_view, numR, secER. simpl. intro H. inversion H; subst.
+  rewrite H4. reflexivity.
+Qed.
+
+Theorem C04_same_sequence_exact_refuted : ~ C04_same_sequence_exact_stmt.
+Proof.
+  intro H. destruct C04_tolerance_witness_runs as (R0 & V & A & I).
+  destruct (run tw_bs tw_tau tw_eor tw_oc tw_on) as [cs sp k ch| | | | |] eqn:R1; try discriminate.
+  destruct (H tw_bs tw_tau tw_eor tw_oc tw_on cs sp k ch (fun _ => 1%R) R1) as (s & F & K).
+  rewrite F in V. inversion V as [[V1 V2]].
+  assert (In (0, 0, 3) (coin_set (gb tw_bs) (1, 0, 0))) as Hc.
+  { apply existsb_exists in I. destruct I as [c [Hc E]]. apply wire_eqb_eq in E. subst c. exact Hc. }
+  specialize (K (1, 0) (1, 0, 0) (0, 0, 3)). rewrite A in K.
+  rewrite (numR_of_view _ _ _ _ V1), (numR_of_view _ _ _ _ V2) in K.
+  assert (In (1, 0) (all_axes (nblocks4 tw_bs))) as Hx by (vm_compute; auto 10).
+  assert (In (1, 0, 0) (wires_of_axis (1, 0))) as Hw by (vm_compute; auto).
+  specialize (K Hx Hw Hc). unfold grading_cells in K. cbn [flat_map fst snd] in K. rewrite !app_nil_r in K.
+  change (Z.to_nat 2) with 2%nat in K.
+  revert K. apply bm_cells_two_differ.
+  - unfold Q2R; simpl; lra.
+  - rewrite Q2R_plus; unfold Q2R; simpl; lra.
+  - unfold Q2R; simpl; lra.
+  - rewrite Q2R_plus; unfold Q2R; simpl; lra.
+Qed.
+
+(** on the same witness the hypotheses of [C04_same_sequence] hold (M = 1, unit lengths), so its conclusion is
+    not vacuous: the two sequences above differ, and are within kappa(1e-7) of each other *)
+Example C04_same_sequence_hypotheses_satisfiable :
+  exists bs tau eor o_coin o_nbrs cs sp k ch s (len : wire -> R),
+    run bs tau eor o_coin o_nbrs = Ok cs sp k ch /\ final bs eor o_coin o_nbrs = Some s /\
+    (0 <= Q2R tau < 1)%R /\ len_shared bs R len /\ expansions_positive bs s /\ ratios_bounded bs 1 s /\
+    g s (1, 0, 0) <> [].
+Proof.
+  destruct C04_tolerance_witness_runs as (R0 & V & _ & _).
+  destruct (run tw_bs tw_tau tw_eor tw_oc tw_on) as [cs sp k ch| | | | |] eqn:R1; try discriminate.
+  destruct (run_ok_final _ _ _ _ _ _ _ _ _ R1) as (s & F & Hok & _).
+  exists tw_bs, tw_tau, tw_eor, tw_oc, tw_on, cs, sp, k, ch, s, (fun _ => 1%R).
+  split; [exact R1|]. split; [exact F|]. split; [unfold tw_tau, Q2R; simpl; lra|].
+  split; [intros w c _ _ _; reflexivity|].
+  assert (oriented_b tw_bs (fun _ => true) = true) as Ob by (vm_compute; reflexivity).
+  pose proof (oriented_b_spec _ _ Ob) as Hor.
+  assert (len_shared tw_bs unit (fun _ => tt)) as Hlen by (intros w c _ _ _; reflexivity).
+  destruct (oracle_ok4_spec _ _ _ Hok) as [Hco Hnb].
+  destruct (final_inv tw_bs tw_eor tw_oc tw_on (fun _ => true) unit (fun _ => tt) Hor Hlen Hco Hnb s F) as [HA HW].
+  split; [|split].
+  - intros w sec Hs. destruct (HW _ _ Hs) as (_ & _ & _ & _ & _ & [j E]). rewrite E. unfold tw_eor.
+    destruct (fst (fst (s_src sec)) =? 0); [|rewrite Q2R_plus]; unfold Q2R; simpl; lra.
+  - intros w sec Hs. destruct (HW _ _ Hs) as (K1 & _ & _ & K4 & _). destruct (HA _ _ K1) as (y & u & Hu & Ec).
+    assert (u = tw_u) as ->.
+    { unfold user_chops4 in Hu. destruct y as [b a]. simpl in Hu.
+      destruct b as [|[|b]]; simpl in Hu; try (destruct b; simpl in Hu);
+        destruct a as [|[|[|a]]]; simpl in Hu; try (destruct a; simpl in Hu);
+        repeat match goal with H : _ \/ _ |- _ => destruct H | H : False |- _ => destruct H end; congruence. }
+    rewrite K4, Ec, seen_lr. unfold tw_u, Q2R. simpl. rewrite Rabs_pos_eq; lra.
+  - rewrite F in V. inversion V as [[V1 _]]. intro E. rewrite E in V1. discriminate.
 Qed.
 
 (** ** 4. simpleGrading only if the four gradings of every direction are equal (rel. [tau]); what is
@@ -198,6 +354,13 @@ Qed.
 Print Assumptions C04_preserve_invariant.
 Print Assumptions C04_preserve_realised.
 Print Assumptions C04_realised_is_blockmesh.
-Print Assumptions C04_same_sequence_partial.
+Print Assumptions C04_cell_factor.
+Print Assumptions C04_sequences_close.
+Print Assumptions C04_bound_vanishes.
+Print Assumptions C04_same_sequence.
+Print Assumptions C04_cells_within_meaning.
+Print Assumptions C04_inverted_is_reversed.
+Print Assumptions C04_copied_shares_records.
+Print Assumptions C04_same_sequence_exact_refuted.
 Print Assumptions C04_simple_only_if_equal.
 Print Assumptions C04_old_invert_loses_value.
